@@ -975,4 +975,177 @@ theorem exprSem_and {inputs : List String} {ρ : Env} {σ0 : FState} {r : String
     obtain ⟨d, s3, hf, h4⟩ := run_bind_ok.mp h2
     exact body hf h4
 
+/-! ### `Or`: `CX, CX, MCX` for up to two arguments, De Morgan (`X.. MCX X.. X`) beyond -/
+
+/-- a step that only appended gates -/
+structure GatesOnly (s s' : CState) : Prop where
+  nq : s'.qc.numQubits = s.qc.numQubits
+  free : s'.qc.free = s.qc.free
+  expq : s'.expq = s.expq
+  marked : s'.qc.marked = s.qc.marked
+  anc : s'.qc.anc = s.qc.anc
+
+theorem GatesOnly.refl (s : CState) : GatesOnly s s := ⟨rfl, rfl, rfl, rfl, rfl⟩
+
+theorem GatesOnly.trans {s s1 s2 : CState} (h1 : GatesOnly s s1) (h2 : GatesOnly s1 s2) : GatesOnly s s2 :=
+  ⟨h2.nq.trans h1.nq, h2.free.trans h1.free, h2.expq.trans h1.expq, h2.marked.trans h1.marked,
+   h2.anc.trans h1.anc⟩
+
+theorem Appended.gatesOnly {cls : GClass} {wires : List Nat} {s s' : CState} (ha : Appended cls wires s s') :
+    GatesOnly s s' := ⟨ha.nq, ha.free, ha.expq, ha.marked, ha.anc⟩
+
+theorem Sem.of_gatesOnly {σ0 : FState} {W : Nat → Prop} {s s' : CState} (h : GatesOnly s s')
+    (hf : ∀ q, ¬ W q → cur σ0 s' q = cur σ0 s q) : Sem σ0 W NoK NoQ s s' := by
+  refine ⟨Nat.le_of_eq h.nq.symm, fun h0 => by rw [h.free]; exact h0, fun q _ hw => hf q hw, ?_, ?_⟩
+  · intro p hp; rw [h.expq] at hp; exact Or.inl ⟨p, hp, rfl⟩
+  · intro m hm; rw [h.marked] at hm; exact Or.inl hm
+
+theorem xAll_run {σ0 : FState} : ∀ (es : List Nat) {u : Unit} {s s' : CState},
+    (xAll es).run s = .ok (u, s') → es.Nodup →
+    GatesOnly s s' ∧ ∀ q, cur σ0 s' q = if q ∈ es then !cur σ0 s q else cur σ0 s q
+  | [], u, s, s', h, _ => by
+    unfold xAll at h
+    obtain ⟨_, rfl⟩ := run_pure_ok.mp h
+    exact ⟨GatesOnly.refl _, fun q => by simp⟩
+  | i :: is, u, s, s', h, hn => by
+    unfold xAll at h
+    obtain ⟨u1, s1, h1, h2⟩ := run_bind_ok.mp h
+    have a1 := xGate_run h1
+    obtain ⟨hin, hn'⟩ := List.nodup_cons.mp hn
+    obtain ⟨g2, hv⟩ := xAll_run is h2 hn'
+    refine ⟨a1.gatesOnly.trans g2, fun q => ?_⟩
+    rw [hv q]
+    by_cases hq : q = i
+    · subst hq
+      simp only [hin, if_false, List.mem_cons, true_or, if_true]
+      rw [a1.cur_eq rfl σ0]; simp
+    · simp only [List.mem_cons, hq, false_or]
+      rw [a1.cur_ne rfl σ0 q hq]
+
+theorem or2_bool (d a b : Bool) : Bool.xor (Bool.xor (Bool.xor d a) b) (a && (b && true)) = Bool.xor d (a || (b || false)) := by
+  cases d <;> cases a <;> cases b <;> rfl
+
+theorem all_not_eq (es : List Nat) (f g : Nat → Bool) (h : ∀ q ∈ es, g q = !f q) : es.all g = !es.any f := by
+  induction es with
+  | nil => rfl
+  | cons a es ih =>
+    simp only [List.all_cons, List.any_cons, h a List.mem_cons_self,
+      ih (fun q hq => h q (List.mem_cons_of_mem _ hq)), Bool.not_or]
+
+theorem orGates_sem {σ0 : FState} {es : List Nat} {dest : Option Nat} {e : BExp} {d a : Nat}
+    {s s' : CState}
+    (h : StateT.run (
+        if es.length ≤ 2 then do
+          cxAll d es
+          if (es.length == 2) = true then do
+              mcx es d
+              markAll es
+              if dest.isNone = true then do
+                  expqSet e d
+                  pure d
+                else pure d
+            else do
+              markAll es
+              if dest.isNone = true then do
+                  expqSet e d
+                  pure d
+                else pure d
+        else do
+          xAll es
+          mcx es d
+          xAll es
+          xGate d
+          markAll es
+          if dest.isNone = true then do
+              expqSet e d
+              pure d
+            else pure d : M Nat) s = .ok (a, s'))
+    (hd : d ∉ es) :
+    a = d ∧ Sem σ0 (· = d) (· = e) (fun m => m ∈ es ∧ m ∈ s.qc.anc) s s' ∧
+      cur σ0 s' d = Bool.xor (cur σ0 s d) (es.any (cur σ0 s)) := by
+  -- every branch: gates `s → t` touching only `d` (net), then the common tail
+  have fin : ∀ (t : CState), GatesOnly s t → (∀ q, q ≠ d → cur σ0 t q = cur σ0 s q) →
+      cur σ0 t d = Bool.xor (cur σ0 s d) (es.any (cur σ0 s)) →
+      StateT.run (do
+          markAll es
+          if dest.isNone = true then do
+              expqSet e d
+              pure d
+            else pure d : M Nat) t = .ok (a, s') →
+      a = d ∧ Sem σ0 (· = d) (· = e) (fun m => m ∈ es ∧ m ∈ s.qc.anc) s s' ∧
+        cur σ0 s' d = Bool.xor (cur σ0 s d) (es.any (cur σ0 s)) := by
+    intro t hg hfr hv hrun
+    obtain ⟨rfl, semf, hcf⟩ := finish_sem (σ0 := σ0) hrun
+    have sem0 : Sem σ0 (· = a) NoK NoQ s t := Sem.of_gatesOnly hg (fun q hq => hfr q hq)
+    refine ⟨rfl, (sem0.trans' semf).mono ?_ ?_ ?_, by rw [hcf, hv]⟩
+    · rintro q _ (h | h)
+      · exact h
+      · exact h.elim
+    · rintro c (h | h)
+      · exact h.elim
+      · exact h
+    · rintro m (h | h)
+      · exact h.elim
+      · exact ⟨h.1, hg.anc ▸ h.2⟩
+  rcases run_ite_ok.mp h with ⟨hle, h⟩ | ⟨_, h⟩
+  · obtain ⟨u1, s1, hcx, h1⟩ := run_bind_ok.mp h
+    match es, hd, hle, hcx, h1, fin with
+    | [], _, _, hcx, h1, fin =>
+      unfold cxAll at hcx
+      obtain ⟨_, rfl⟩ := run_pure_ok.mp hcx
+      rcases run_ite_ok.mp h1 with ⟨hc, _⟩ | ⟨_, h1⟩
+      · simp at hc
+      · exact fin _ (GatesOnly.refl _) (fun _ _ => rfl) (by simp) h1
+    | [q1], hd, _, hcx, h1, fin =>
+      unfold cxAll at hcx
+      obtain ⟨u2, s2, hc1, hc2⟩ := run_bind_ok.mp hcx
+      unfold cxAll at hc2
+      obtain ⟨_, rfl⟩ := run_pure_ok.mp hc2
+      have a1 := cx_run hc1
+      rcases run_ite_ok.mp h1 with ⟨hc, _⟩ | ⟨_, h1⟩
+      · simp at hc
+      · exact fin _ a1.gatesOnly (fun q hq => a1.cur_ne rfl σ0 q hq) (by rw [a1.cur_eq rfl σ0]; simp) h1
+    | [q1, q2], hd, _, hcx, h1, fin =>
+      unfold cxAll at hcx
+      obtain ⟨u2, s2, hc1, hc2⟩ := run_bind_ok.mp hcx
+      unfold cxAll at hc2
+      obtain ⟨u3, s3, hc3, hc4⟩ := run_bind_ok.mp hc2
+      unfold cxAll at hc4
+      obtain ⟨_, rfl⟩ := run_pure_ok.mp hc4
+      have a1 := cx_run hc1
+      have a2 := cx_run hc3
+      have hq1 : q1 ≠ d := by rintro rfl; exact hd (by simp)
+      have hq2 : q2 ≠ d := by rintro rfl; exact hd (by simp)
+      rcases run_ite_ok.mp h1 with ⟨_, h1⟩ | ⟨hc, _⟩
+      · obtain ⟨u4, s4, hm, h2⟩ := run_bind_ok.mp h1
+        have a3 := mcx_run hm
+        refine fin _ ((a1.gatesOnly.trans a2.gatesOnly).trans a3.gatesOnly) ?_ ?_ h2
+        · intro q hq
+          rw [a3.cur_ne rfl σ0 q hq, a2.cur_ne rfl σ0 q hq, a1.cur_ne rfl σ0 q hq]
+        · rw [a3.cur_eq rfl σ0, a2.cur_eq rfl σ0, a1.cur_eq rfl σ0]
+          simp only [List.all_cons, List.all_nil, List.any_cons, List.any_nil]
+          rw [a2.cur_ne rfl σ0 q1 hq1, a2.cur_ne rfl σ0 q2 hq2, a1.cur_ne rfl σ0 q1 hq1, a1.cur_ne rfl σ0 q2 hq2]
+          cases cur σ0 s d <;> cases cur σ0 s q1 <;> cases cur σ0 s q2 <;> rfl
+      · simp at hc
+    | _ :: _ :: _ :: _, _, hle, _, _, _ => simp at hle
+  · obtain ⟨u1, s1, hx1, h1⟩ := run_bind_ok.mp h
+    obtain ⟨u2, s2, hm, h2⟩ := run_bind_ok.mp h1
+    obtain ⟨u3, s3, hx2, h3⟩ := run_bind_ok.mp h2
+    obtain ⟨u4, s4, hx3, h4⟩ := run_bind_ok.mp h3
+    have am := mcx_run hm
+    have hnd : es.Nodup := by
+      have := (appendError_none am.noerr).1
+      exact (List.nodup_append.mp this).1
+    obtain ⟨g1, v1⟩ := xAll_run (σ0 := σ0) es hx1 hnd
+    obtain ⟨g3, v3⟩ := xAll_run (σ0 := σ0) es hx2 hnd
+    have a4 := xGate_run hx3
+    refine fin _ (((g1.trans am.gatesOnly).trans g3).trans a4.gatesOnly) ?_ ?_ h4
+    · intro q hq
+      rw [a4.cur_ne rfl σ0 q hq, v3 q, am.cur_ne rfl σ0 q hq, v1 q]
+      by_cases hqe : q ∈ es <;> simp [hqe]
+    · rw [a4.cur_eq rfl σ0, v3 d, am.cur_eq rfl σ0, v1 d]
+      simp only [hd, if_false, List.all_nil, Bool.xor_true]
+      rw [all_not_eq es (cur σ0 s) (cur σ0 s1) (fun q hq => by rw [v1 q]; simp [hq])]
+      cases cur σ0 s d <;> cases es.any (cur σ0 s) <;> rfl
+
 end QV.Compiler
